@@ -4,7 +4,7 @@ import itertools
 import json
 import random
 
-from harness import corpus, engine, k2, tlc
+from harness import corpus, dagscripts, engine, k2, tlc
 from props import c13
 
 LEVEL = 'model_checking'
@@ -142,11 +142,36 @@ def main(chk):
                 pos = rnd.randrange(0, n + 1)
                 units.append({'text': gen_text(reads, p, dup=(a, pos)), 'inputs': sorted(set(inputs) | {'In_1'})})
                 meta.append((k, list(p) + [pos], (a, 0)))
+    # dependencies through clause bodies: scalars defined by statements and used inside calc / filter of several statements
+    fam = dagscripts.generate(rnd, 25 if quick else 250)
+    famof = {}
+    for gi, sc in enumerate(fam):
+        n = len(sc['stmts'])
+        allp = list(itertools.permutations(range(n)))
+        perms = [tuple(range(n)), tuple(reversed(range(n)))] + rnd.sample(allp, min(len(allp), 6 if quick else 30))
+        for p in dict.fromkeys(perms):
+            famof[len(units)] = (gi, sc)
+            units.append({'text': '\n'.join(sc['stmts'][i]['text'] for i in p), 'inputs': sc['inputs'], 'want_results': p == tuple(range(n))})
+            meta.append(('fam%d' % gi, [i + 1 for i in p], None))
     obs = k2.pmap('props.c12:observe', units)
     tun = {}
     vunits, vobs = [], []
-    for u, (k, p, dup), o in zip(units, meta, obs):
+    for ui, (u, (k, p, dup), o) in enumerate(zip(units, meta, obs)):
         chk.add('evaluations')
+        if ui in famof:
+            gi, sc = famof[ui]
+            gid = 'k%d' % gi
+            t = tun.setdefault(gid, {'id': gid, 'n': len(sc['stmts']), 'reads': [x['reads'] for x in sc['stmts']], 'dup': False, 'obs': [], 'texts': [], 'clause_scalars': True})
+            for api in ('sem', 'run'):
+                t['obs'].append({'perm': p, 'api': api, 'outcome': o[api]['outcome'], 'digest': o[api]['digest']})
+            t['texts'].append(u['text'])
+            if o.get('results'):
+                env = {n: c13.input_ds(int(n.split('_')[1])) for n in u['inputs']}
+                for name, res in o['results'].items():
+                    if name in sc['terms']:
+                        vunits.append({'id': '%s.%s' % (gid, name), 'env': env, 'term': sc['terms'][name], 'cc': False, 'text': u['text']})
+                        vobs.append(dict(res, text=u['text']))
+            continue
         gid = 'g%s%s' % (digest(k), '-dup%d%d' % dup if dup else '')
         t = tun.setdefault(gid, {'id': gid, 'n': len(json.loads(k)), 'reads': json.loads(k), 'dup': bool(dup), 'obs': [], 'texts': []})
         for api in ('sem', 'run'):
@@ -191,7 +216,7 @@ def main(chk):
             t['obs'].append({'perm': p, 'api': api, 'outcome': o[api]['outcome'], 'digest': o[api]['digest']})
         t['texts'].append(u['text'])
     tlist = list(tun.values())
-    verdicts = validate(chk, [{k: v for k, v in t.items() if k not in ('texts', 'corpus')} for t in tlist])
+    verdicts = validate(chk, [{k: v for k, v in t.items() if k not in ('texts', 'corpus', 'clause_scalars')} for t in tlist])
     nontrivial = 0
     for t in tlist:
         v = verdicts[t['id']]
@@ -199,7 +224,7 @@ def main(chk):
         if len({json.dumps(o['perm']) for o in t['obs']}) > 1:
             nontrivial += 1
         if not v['ok']:
-            kind = 'corpus %s' % t['corpus'] if 'corpus' in t else ('redefinition' if t['dup'] else 'generated')
+            kind = 'corpus %s' % t['corpus'] if 'corpus' in t else ('redefinition' if t['dup'] else 'clause-scalars' if t.get('clause_scalars') else 'generated')
             chk.violation('%s | %s' % (v['why'][:60], kind), v['why'], {'texts': t['texts'][:6], 'obs': t['obs'][:12]})
         else:
             chk.sample({'script': t['texts'][0], 'permutations_observed': len(t['texts']), 'outcome': t['obs'][0]['outcome']})
@@ -212,7 +237,7 @@ def main(chk):
         if not v['ok']:
             chk.violation('result value | %s' % u['text'], 'result %s differs from the denotation of the script: %s' % (u['id'], v['why']), u)
     # binding demonstration
-    demo = json.loads(json.dumps({k: v for k, v in tlist[0].items() if k not in ('texts', 'corpus')}))
+    demo = json.loads(json.dumps({k: v for k, v in tlist[0].items() if k not in ('texts', 'corpus', 'clause_scalars')}))
     demo['id'] = 'demo'
     demo['obs'][-1]['digest'] = 'corrupted'
     demo['obs'][-1]['outcome'] = 'ok'
